@@ -673,5 +673,299 @@ Proof.
   split; [apply nonew_NP; exact N|]. split; [apply nonew_PP; exact N|right; exact N].
 Qed.
 
+(* ------------------------------------------------------------------ segmentation *)
+Definition splitQ (e : Z) (s s' : vsock) : Prop :=
+  J0 s' /\ NP e (min_ss (v_ss s')) (ss_segs (v_segs s')) /\ PP e (min_ss (v_ss s')) (ss_segs (v_segs s')) /\
+  v_out s' = v_out s /\ v_inbox s' = v_inbox s /\
+  (is_remote_fin_or_later (v_state s) = true -> v_segs s' = v_segs s).
+
+Lemma splitQ_mk : forall e (s b : vsock) ss' segs',
+  v_ss b = ss' -> v_segs b = segs' -> sb ss' -> szC C (ss_segs segs') -> tok (ss_segs segs') ->
+  til (ss_segs segs') (ss_offset segs') -> NP e (min_ss ss') (ss_segs segs') -> PP e (min_ss ss') (ss_segs segs') ->
+  v_out b = v_out s -> v_inbox b = v_inbox s ->
+  (is_remote_fin_or_later (v_state s) = true -> segs' = v_segs s) -> splitQ e s b.
+Proof.
+  intros e s b ss' segs' E1 E2 H1 H2 H3 H4 H5 H6 H7 H8 H9. unfold splitQ, J0. rewrite E1, E2. tauto.
+Qed.
+
+Lemma splitQ_same : forall e (s b : vsock),
+  J0 s -> NP e (min_ss (v_ss s)) (ss_segs (v_segs s)) -> PP e (min_ss (v_ss s)) (ss_segs (v_segs s)) ->
+  v_ss b = v_ss s -> v_segs b = v_segs s -> v_inbox b = v_inbox s -> v_out b = v_out s -> splitQ e s b.
+Proof.
+  intros e s b (H1 & H2 & H3 & H4) H5 H6 E1 E2 E3 E4.
+  apply (splitQ_mk e s b (v_ss s) (v_segs s)); auto.
+Qed.
+
+Lemma sb_probe_failed : forall a n, sb a -> sb (on_probe_failed a n).
+Proof. unfold sb, on_probe_failed. cbn [min_ss max_ss]. intros a n (B1 & B2). lia. Qed.
+
+Lemma split_c14 : forall e (s : vsock),
+  J0 s -> NP e (min_ss (v_ss s)) (ss_segs (v_segs s)) -> PP e (min_ss (v_ss s)) (ss_segs (v_segs s)) ->
+  stR (splitQ e) s (split_tx_queue_into_segments cci s).
+Proof.
+  intros e s HJ Hnp Hpp. unfold split_tx_queue_into_segments.
+  destruct (_ =? 0); [cbn [stR]; apply splitQ_same; auto; exact eq_refl|].
+  match goal with |- context [is_remote_fin_or_later (v_state ?x)] => set (s1 := x) end.
+  assert (K : v_ss s1 = v_ss s /\ v_segs s1 = v_segs s /\ v_inbox s1 = v_inbox s /\ v_out s1 = v_out s /\
+              v_state s1 = v_state s).
+  { subst s1. destruct (_ && _); [|repeat (split; [exact eq_refl|]); exact eq_refl].
+    destruct (grow _ _) as [tx1 g]. destruct g; [destruct (wake_writer tx1) as [tx2 w]|];
+      repeat (split; [exact eq_refl|]); exact eq_refl. }
+  clearbody s1. destruct K as (K1 & K2 & K3 & K4 & K5).
+  destruct (is_remote_fin_or_later (v_state s1)) eqn:Efin.
+  { cbn [stR]. apply splitQ_same; assumption. }
+  assert (Hrf : forall t : segments, is_remote_fin_or_later (v_state s) = true -> t = v_segs s)
+    by (intros t Hc; rewrite <- K5, Efin in Hc; discriminate).
+  destruct (pop_expired_mtu_probe (v_segs s1) _ _) as [segs1 pe] eqn:Epe.
+  pose proof (pop_expired_cases _ _ _ _ _ Epe) as Hpe.
+  destruct HJ as (HJ1 & HJ2 & HJ3 & HJ4).
+  assert (Hcont : forall (s2 : vsock) ss2 segs2,
+     v_ss s2 = ss2 -> v_segs s2 = segs2 ->
+     sb ss2 -> szC C (ss_segs segs2) -> noup (ss_segs segs2) -> til (ss_segs segs2) (ss_offset segs2) ->
+     NP e (min_ss ss2) (ss_segs segs2) -> PP e (min_ss ss2) (ss_segs segs2) ->
+     v_out s2 = v_out s -> v_inbox s2 = v_inbox s ->
+     stR (splitQ e) s
+       (if Z.of_nat (length (ring (v_tx s))) <? ss_len_bytes (v_segs s2)
+        then SErr s2 (ErrBug BugInBufferComputations)
+        else match segment_loop (ring (v_tx s2)) (o_nagle (v_opts s2)) (v_ss s2) (v_segs s2)
+                     (Z.of_nat (length (ring (v_tx s))) - ss_len_bytes (v_segs s2))
+                     (v_last_remote_window s2) with
+             | Some (ss', segs', remaining) =>
+                 SOk (set_unsegmented (VSockRec.set_segs (set_ss s2 ss') segs') remaining) tt
+             | None => SPanic
+             end)).
+  { intros s2 ss2 segs2 E1 E2 A1 A2 A3 A4 A5 A6 A7 A8.
+    destruct (_ <? _).
+    { cbn [stR]. apply (splitQ_mk e s s2 ss2 segs2); auto using noup_tok. }
+    rewrite E1, E2.
+    destruct (segment_loop _ _ _ _ _ _) as [[[ss' segs'] rem']|] eqn:El; [|exact I].
+    cbn [stR].
+    assert (A1' : 1 <= min_ss ss2 <= max_ss ss2) by (unfold sb in A1; lia).
+    destruct (segment_loop_c14 C e _ _ ss2 segs2 _ _ _ _ _ A1' (proj2 A1) A3 A4 A2 A5 A6 El)
+      as (B1 & B2 & B3 & B4 & B5 & B6 & B7).
+    apply (splitQ_mk e s _ ss' segs'); auto; try exact eq_refl.
+    - unfold sb in *. rewrite B1, B2. exact A1.
+    - rewrite B1. exact B6.
+    - rewrite B1. exact B7. }
+  destruct pe as [rewind_to payload_size| |].
+  - (* the expired probe is popped *)
+    destruct Hpe as (x & Hx & ->).
+    destruct (popped_props (v_segs s1) segs1 x C e (min_ss (v_ss s1)) Hx) as (P1 & P2 & P3 & P4 & P5 & _).
+    rewrite K1, K2 in *.
+    apply (Hcont _ (on_probe_failed (v_ss s1) (sg_size x)) segs1);
+      try (destruct (seq_gt _ _); exact eq_refl); rewrite ?K1; auto.
+    + apply sb_probe_failed; exact HJ1.
+    + destruct (seq_gt _ _); exact K4.
+    + destruct (seq_gt _ _); exact K3.
+  - (* a probe is outstanding *)
+    subst segs1. cbn [stR]. apply splitQ_same; unfold J0; auto.
+  - destruct Hpe as [-> Hl].
+    apply (Hcont s1 (v_ss s1) (v_segs s1)); auto; rewrite ?K1, ?K2; auto.
+    apply tok_noup_if; [exact HJ3|]. rewrite <- K2. exact Hl.
+Qed.
+
+(* ------------------------------------------------------------------ the rest of poll_body *)
+Lemma poll_start_sr : forall (s : vsock), sr s (poll_start s).
+Proof. intros s. unfold poll_start. sr_leaf. Qed.
+
+Lemma rx_flush_sr : forall (s : vsock) rx1 w, sr s (add_wakes (set_rx s rx1) w).
+Proof. intros. unfold add_wakes. sr_leaf. Qed.
+
+Lemma transition_to_fin_wait_1_sr : forall (s : vsock), sr s (transition_to_fin_wait_1 s).
+Proof.
+  intros s. unfold transition_to_fin_wait_1. destruct (v_state s); first [apply sr_refl | sr_leaf].
+Qed.
+
+Lemma mark_both_closed_sr : forall (s : vsock), sr s (mark_both_closed s).
+Proof.
+  intros s. unfold mark_both_closed.
+  destruct (rx_mark_vsock_closed (v_rx s)) as [rx1 w1].
+  destruct (mark_vsock_closed (v_tx s)) as [tx1 w2]. unfold add_wakes. sr_leaf.
+Qed.
+
+Lemma just_before_death_sr : forall (s : vsock) e, sr s (just_before_death s e).
+Proof.
+  intros s e. unfold just_before_death.
+  match goal with |- context [mark_both_closed ?x] => set (s1 := x) end.
+  assert (F1 : sr s s1).
+  { subst s1. destruct e; [|apply sr_refl].
+    destruct (rx_enqueue_error _) as [rx1 w]. unfold add_wakes. sr_leaf. }
+  clearbody s1.
+  pose proof (mark_both_closed_sr s1) as F2.
+  set (s2 := mark_both_closed s1) in *. clearbody s2.
+  pose proof (sr_trans _ _ _ F1 F2) as F3.
+  destruct e; [|exact F3].
+  destruct (negb _); [|exact F3].
+  match goal with |- context [send_control_packet ?x ?h] =>
+    pose proof (send_control_packet_sr x h) as F4; destruct (send_control_packet x h) end;
+    cbn [stR] in F4.
+  - eapply sr_trans; [exact F3|]. eapply sr_trans; [|exact F4]. sr_leaf.
+  - eapply sr_trans; [exact F3|]. eapply sr_trans; [|exact F4]. sr_leaf.
+  - eapply sr_trans; [exact F3|]. sr_leaf.
+Qed.
+
+Lemma poll_tail_sr : forall (s : vsock), sr s (poll_tail s).
+Proof.
+  intros s. unfold poll_tail.
+  match goal with |- context [next_timer_to_poll ?x] => set (s1 := x) end.
+  assert (F1 : sr s s1).
+  { subst s1. destruct (is_local_fin_or_later _); [sr_leaf | apply sr_refl]. }
+  clearbody s1. eapply sr_trans; [exact F1|].
+  unfold next_timer_to_poll. destruct (v_transport_pending s1).
+  - destruct (v_t_inactivity s1) as [i|]; [|apply sr_refl].
+    unfold arm_in, add_wakes. destruct (_ <=? 0); sr_leaf.
+  - match goal with |- context [match ?o with Some _ => _ | None => _ end] => destruct o as [i|] end.
+    + unfold arm_in, add_wakes. destruct (_ <=? 0); sr_leaf.
+    + sr_leaf.
+Qed.
+
+(* ------------------------------------------------------------------ every poll keeps J *)
+Definition RJ (s s' : vsock) : Prop := J s -> J s'.
+
+Lemma stR_RJ : forall (R0 : vsock -> vsock -> Prop),
+  (forall a b, R0 a b -> J a -> J b) ->
+  forall A (s : vsock) (m : step A), (J s -> stR R0 s m) -> stR RJ s m.
+Proof.
+  intros R0 HR A s m H. unfold RJ. destruct m; cbn [stR] in *; auto; intro HJ; eapply HR; eauto.
+Qed.
+
+Lemma J_splitQ : forall e s s', splitQ e s s' -> J s -> J s'.
+Proof. intros e s s' (A1 & _ & _ & A4 & _) (_ & B2). split; [exact A1|]. unfold outC in *. rewrite A4. exact B2. Qed.
+
+Theorem poll_J : forall (s s' : vsock) r, poll cci s = (s', r) -> J (poll_init s) -> J s'.
+Proof.
+  intros s s' r H.
+  apply (poll_R cci RJ (fun s H => H) (fun a b c F G H => G (F H))) with (r := r); try exact H.
+  - intros s0. exact (J_sr _ _ (poll_start_sr s0)).
+  - intros s0. apply (stR_RJ sr J_sr). intros _. apply maybe_send_syn_ack_sr.
+  - intros s0. apply (stR_RJ sr J_sr). intros _. apply send_ack_sr.
+  - intros s0. apply (stR_RJ ir J_ir). intros _. apply process_all_incoming_messages_ir.
+  - intros s0 rx1 fb w _. exact (J_sr _ _ (rx_flush_sr s0 rx1 (rx_wakes w))).
+  - intros s0. apply (stR_RJ (splitQ (ss_offset (v_segs s0))) (J_splitQ _)). intros [HJ _].
+    destruct (J0_X_start s0 HJ) as (X1 & X2 & _). apply split_c14; assumption.
+  - intros s0. apply (stR_RJ gr J_gr). intros [(_ & HJ & _) _]. apply send_tx_queue_gr. exact HJ.
+  - intros s0. exact (J_sr _ _ (transition_to_fin_wait_1_sr s0)).
+  - intros s0. apply (stR_RJ sr J_sr). intros _. apply maybe_send_fin_sr.
+  - intros s0. apply (stR_RJ sr J_sr). intros _. apply maybe_send_ack_sr.
+  - intros s0 e. exact (J_sr _ _ (just_before_death_sr s0 e)).
+  - intros s0. exact (J_sr _ _ (poll_tail_sr s0)).
+Qed.
+
+(* ------------------------------------------------------------------ Pending polls: a staged invariant *)
+Section PollPendingInv.
+Variables (P Bc : vsock -> Prop).
+Hypothesis H_start : forall s, P s -> P (poll_start s).
+Hypothesis H_syn_ack : forall s, P s -> stU P (maybe_send_syn_ack s).
+Hypothesis H_send_ack : forall s, P s -> stU P (send_ack s).
+Hypothesis H_pim : forall s, P s ->
+  stU (fun s' => P s' /\ (v_transport_pending s' = false -> Bc s')) (process_all_incoming_messages cci s).
+Hypothesis H_flush : forall s rx1 w, P s -> P (add_wakes (set_rx s rx1) w).
+Hypothesis H_flush_B : forall s rx1 w, Bc s -> Bc (add_wakes (set_rx s rx1) w).
+Hypothesis H_split : forall s, P s -> Bc s -> stU P (split_tx_queue_into_segments cci s).
+Hypothesis H_stq : forall s, P s -> stU P (send_tx_queue cci s).
+Hypothesis H_fw1 : forall s, P s -> P (transition_to_fin_wait_1 s).
+Hypothesis H_fin : forall s, P s -> stU P (maybe_send_fin s).
+Hypothesis H_msa : forall s, P s -> stU P (maybe_send_ack s).
+Hypothesis H_tail : forall s, P s -> P (poll_tail s).
+
+Definition brP (r : body_res (CC := CC)) : Prop :=
+  match r with BrReturn s' PollPending => P s' | BrRestart s' => P s' | _ => True end.
+
+Lemma bail_P : forall X (Q : vsock -> Prop) (m : step X) k,
+  stU Q m -> (forall s1, Q s1 -> P s1) -> (forall s1 a, Q s1 -> brP (k s1 a)) -> brP (bail m k).
+Proof.
+  intros X Q m k Hm HQ Hk. unfold bail. destruct m as [s1 a|s1 e|]; cbn [stU] in *.
+  - destruct (v_restart s1); [cbn [brP]; auto|auto].
+  - unfold die. exact I.
+  - exact I.
+Qed.
+
+Lemma pend_P : forall X (Q : vsock -> Prop) (m : step X) k,
+  stU Q m -> (forall s1, Q s1 -> P s1) ->
+  (forall s1 a, Q s1 -> v_transport_pending s1 = false -> brP (k s1 a)) -> brP (pend m k).
+Proof.
+  intros X Q m k Hm HQ Hk. unfold pend. apply (bail_P _ Q); auto.
+  intros s1 a Q1. destruct (v_transport_pending s1) eqn:T; [cbn [brP]; auto|].
+  destruct (v_restart s1); [cbn [brP]; auto|]. apply Hk; auto.
+Qed.
+
+Theorem poll_body_P : forall s0, P s0 -> brP (poll_body cci s0).
+Proof.
+  intros s0 HP. apply H_start in HP. unfold poll_body. fold (poll_start s0).
+  generalize dependent (poll_start s0). clear s0. intros s0 HP.
+  apply (pend_P _ P); [apply H_syn_ack; exact HP|auto|]. intros s1 _ HP1 _.
+  apply (pend_P _ P);
+    [destruct (immediate_ack_to_transmit s1); [apply H_send_ack; exact HP1|exact HP1]|auto|].
+  intros s2 _ HP2 _.
+  apply (pend_P _ (fun s' => P s' /\ (v_transport_pending s' = false -> Bc s')));
+    [apply H_pim; exact HP2|tauto|].
+  intros s3 _ [HP3 HB3] T3. specialize (HB3 T3).
+  destruct (rx_flush (v_rx s3)) as [[rx1 fr] w] eqn:Efl. destruct fr as [fb|]; [|exact I].
+  pose proof (H_flush s3 rx1 (rx_wakes w) HP3) as HP4.
+  pose proof (H_flush_B s3 rx1 (rx_wakes w) HB3) as HB4.
+  set (s4 := add_wakes (set_rx s3 rx1) (rx_wakes w)) in *. clearbody s4.
+  destruct (timer_expired _ _); [unfold die; exact I|].
+  apply (bail_P _ P); [apply H_split; assumption|auto|]. intros s5 _ HP5.
+  apply (pend_P _ P); [apply H_stq; exact HP5|auto|]. intros s6 _ HP6 _.
+  assert (HP7 : P (if should_close_on_own_initiative s6 then transition_to_fin_wait_1 s6 else s6)).
+  { destruct (should_close_on_own_initiative s6); [apply H_fw1|]; exact HP6. }
+  set (s7 := if should_close_on_own_initiative s6 then transition_to_fin_wait_1 s6 else s6) in *.
+  clearbody s7.
+  apply (pend_P _ P); [apply H_fin; exact HP7|auto|]. intros s8 _ HP8 _.
+  apply (pend_P _ P); [apply H_msa; exact HP8|auto|]. intros s9 _ HP9 _.
+  destruct (state_is_closed _ _); [exact I|].
+  pose proof (H_tail s9 HP9) as Ft. unfold poll_tail in Ft.
+  destruct (next_timer_to_poll _) as [sx t]. destruct t; exact Ft.
+Qed.
+
+Theorem poll_loop_P : forall fuel s s',
+  P s -> poll_loop cci fuel s = (s', PollPending) -> P s'.
+Proof.
+  induction fuel as [|fuel IH]; intros s s' HP H; cbn [poll_loop] in H; [discriminate|].
+  pose proof (poll_body_P s HP) as Fb.
+  destruct (poll_body cci s) as [s1 r1|s1|]; cbn [brP] in *.
+  - inversion H; subst. exact Fb.
+  - eapply IH; [exact Fb | exact H].
+  - discriminate.
+Qed.
+
+Theorem poll_P : forall s s', P (poll_init s) -> poll cci s = (s', PollPending) -> P s'.
+Proof. intros s s' HP H. rewrite poll_unfold in H. eapply poll_loop_P; [exact HP | exact H]. Qed.
+
+End PollPendingInv.
+
+Lemma stU_of_stR : forall (R0 : vsock -> vsock -> Prop) (Q Q' : vsock -> Prop),
+  forall A (s : vsock) (m : step A), (forall b, R0 s b -> Q s -> Q' b) -> Q s -> stR R0 s m -> stU Q' m.
+Proof. intros R0 Q Q' A s m HR HQ H. destruct m; cbn [stR stU] in *; auto. Qed.
+
+Definition Bc (s : vsock) : Prop := v_inbox s = [] \/ is_remote_fin_or_later (v_state s) = true.
+
+Theorem poll_St : forall e (s s' : vsock),
+  St e (poll_init s) -> poll cci s = (s', PollPending) -> St e s'.
+Proof.
+  intros e s s'. apply (poll_P (St e) Bc).
+  - intros s0. exact (St_sr e _ _ (poll_start_sr s0)).
+  - intros s0 H0. eapply (stU_of_stR sr); [intros b Hb; apply St_sr; exact Hb|exact H0|apply maybe_send_syn_ack_sr].
+  - intros s0 H0. eapply (stU_of_stR sr); [intros b Hb; apply St_sr; exact Hb|exact H0|apply send_ack_sr].
+  - intros s0 H0. pose proof (process_all_incoming_messages_ir s0) as Hi.
+    destruct (process_all_incoming_messages cci s0) as [s3 u|s3 e3|] eqn:E3; cbn [stR stU] in *; auto.
+    split; [eapply St_ir; eauto|]. intro T3.
+    destruct (process_all_D cci _ _ _ E3) as [D|[D|D]]; [left; exact D| |congruence].
+    right. destruct (v_state s3); cbn [state_is_closed is_remote_fin_or_later] in *; congruence.
+  - intros s0 rx1 w. exact (St_sr e _ _ (rx_flush_sr s0 rx1 w)).
+  - intros s0 rx1 w H0. exact H0.
+  - intros s0 [HJ (X1 & X2 & X3)] HB. pose proof (split_c14 e s0 HJ X1 X2) as Hs.
+    destruct (split_tx_queue_into_segments cci s0) as [s5 u|s5 e5|]; cbn [stR stU] in *; auto.
+    destruct Hs as (A1 & A2 & A3 & A4 & A5 & A6). split; [exact A1|]. unfold X. rewrite A5.
+    split; [exact A2|]. split; [exact A3|].
+    destruct HB as [HB|HB]; [left; exact HB|]. rewrite (A6 HB). exact X3.
+  - intros s0 H0. eapply (stU_of_stR gr); [intros b Hb; apply St_gr; exact Hb|exact H0|].
+    apply send_tx_queue_gr. apply H0.
+  - intros s0. exact (St_sr e _ _ (transition_to_fin_wait_1_sr s0)).
+  - intros s0 H0. eapply (stU_of_stR sr); [intros b Hb; apply St_sr; exact Hb|exact H0|apply maybe_send_fin_sr].
+  - intros s0 H0. eapply (stU_of_stR sr); [intros b Hb; apply St_sr; exact Hb|exact H0|apply maybe_send_ack_sr].
+  - intros s0. exact (St_sr e _ _ (poll_tail_sr s0)).
+Qed.
+
 End Bounds.
 End WithCC.
